@@ -47,10 +47,15 @@ for k in ks:
         res['detected'] = res['checks'][pid]['exit'] == 1
         print(json.dumps(res, indent=1)[:1800])
         if valid:
-            dest = os.path.join(here, 'seeded', '%s-%s' % (pid, k))
+            dest = os.path.join(here, 'seeded', '%s-%s' % (pid, int(k) + int(os.environ.get('KOFF', '0'))))
             os.makedirs(dest, exist_ok=True)
             shutil.copy(patch, os.path.join(dest, 'patch.diff'))
-            shutil.copy(demo, os.path.join(dest, 'demo.py'))
+            # demos are kept self-contained: the reference integrator is looked up in seeded/_tools
+            dsrc = open(demo).read().replace(
+                "sys.path.insert(0, '/tmp/seedtools')",
+                "sys.path.insert(0, __import__('os').path.join(__import__('os').path.dirname(__import__('os')"
+                ".path.abspath(__file__)), '..', '_tools'))")
+            open(os.path.join(dest, 'demo.py'), 'w').write(dsrc)
             meta = {}
             mp = os.path.join(out, 'meta%s.json' % k)
             if os.path.exists(mp):
